@@ -281,6 +281,17 @@ def handle (st : DrvState) (op : String) (a : List Int) : DrvState × String :=
     let lsf := (rest.take 30).map Int.toNat
     let pl := (rest.drop 30).map Int.toNat
     (st, joinNats (Spec.Tx.streamFrame lsf lichN.toNat fn.toNat pl))
+  | "spec_frame_bits", kind :: rest =>
+    -- the 368 channel bits of one specification-encoded frame (the objects the C01 frame-level theorems are about):
+    -- 0 lsf x30 | 1 <lich number> lsf x30 data x18 | 2 bits x206 | 3 bits x197
+    let bitStr (bs : List Bool) := String.intercalate " " (bs.map fun b => if b then "1" else "0")
+    if kind == 0 then (st, bitStr (Spec.Tx.lsfFrameBits (rest.map Int.toNat)))
+    else if kind == 1 then
+      match rest with
+      | n :: r => (st, bitStr (Spec.Tx.streamFrameBits ((r.take 30).map Int.toNat) n.toNat ((r.drop 30).map Int.toNat)))
+      | [] => (st, "bad-args")
+    else if kind == 2 then (st, bitStr (Spec.Tx.packetFrameBits (rest.map fun x => x != 0)))
+    else (st, bitStr (Spec.Tx.bertFrameBits (rest.map fun x => x != 0)))
   | "spec_bert", state :: n :: _ =>
     let (bytes, g) := (List.range n.toNat).foldl (fun (acc : List Nat × Nat) _ =>
       (acc.1 ++ Spec.Tx.bertFrame (Prbs.genBits 197 acc.2), Prbs.genState 197 acc.2)) ([], state.toNat)
